@@ -92,11 +92,18 @@ impl<T> MemoryStore<T> {
         address: &Multiaddr,
         is_permanent: bool,
     ) -> bool {
-        let record = self
-            .records
-            .entry(*peer)
-            .or_insert_with(|| PeerRecord::new(self.config.record_capacity));
-        let is_new = record.add_address(address, is_permanent);
+        let is_new = match self.records.peek_mut(peer) {
+            Some(record) => record.add_address(address, is_permanent),
+            None => {
+                let mut record = PeerRecord::new(self.config.record_capacity);
+                let is_new = record.add_address(address, is_permanent);
+                // `LruCache::insert` evicts the least recently used peer once `peer_capacity`
+                // is exceeded. Inserting through `LruCache::entry` does not: it lets the cache
+                // grow to `peer_capacity + 1` records.
+                self.records.insert(*peer, record);
+                is_new
+            }
+        };
         if is_new {
             self.push_event_and_wake(Event::PeerAddressAdded {
                 peer_id: *peer,
